@@ -435,6 +435,10 @@ def judge_synth(case, run, r1):
         bad = check_typed(l, st)
         if bad:
             out.append(F('C12', 'C12.type', 'bad-stored-type', f'{q}: {bad}'))
+    if r1.verdict == 'abort' and returned and {k for k, _ in r1.aborts.values()} == {'type-error'}:
+        out.append(F('C12', 'C12.reject', 'not-rejected',
+                     f'{sorted(r1.aborts)} produce a value of another type than declared; that must be rejected with an error '
+                     f'naming the line, but the solve returned ({run.outcome}) - the value was stored or coerced'))
     if r1.verdict == 'abort' and run.outcome == 'abort':
         kinds = {k for k, _ in r1.aborts.values()}
         if kinds == {'type-error'}:
